@@ -117,6 +117,41 @@ def run_case(case, env, res, tmpdir, state):
         # render function comes first: what it leaves behind must not show in the next one
         if aborted_render(image, case["abort_at"]):
             res.count("renders preceded by an interrupted render")
+    for render_pass in (1, 2):
+        if render_pass == 2:
+            if not case.get("resize2") or res.too_many():
+                break
+            kind, f1, f2 = case["resize2"]
+            w2, h2 = 1 + f1 * (cols - 1) // 1000, 1 + f2 * (rows - 1) // 1000
+            if kind == "set_size_both":
+                image.set_size(w2, h2)
+            elif kind == "size_tuple":
+                image.size = (w2, h2)
+            elif kind == "width":
+                image.width = w2
+            elif kind == "height":
+                image.height = h2
+            elif kind == "set_size_w":
+                image.set_size(width=w2)
+            elif kind == "set_size_h":
+                image.set_size(height=h2)
+            elif kind == "fit":
+                image.size = Size.FIT
+            W, H = image.rendered_size
+            if (image.rendered_width, image.rendered_height) != (W, H):
+                res.violation("C01:%s:advertised-size" % case["style"], "after %s: rendered_width x rendered_height = %s x %s, rendered_size = %s" % (kind, image.rendered_width, image.rendered_height, (W, H)), case)
+                break
+            if W > cols or H > rows:
+                res.count("skipped: does not fit terminal")
+                break
+            res.count("second renders of an instance after its size was set again (%s)" % kind)
+        errs = _render_and_check(case, image, env, res, how, spec, W, H, cols, rows)
+        if errs:
+            break
+    image.close()
+
+
+def _render_and_check(case, image, env, res, how, spec, W, H, cols, rows):
     if how == "str":
         out = str(image)
     elif how == "format":
@@ -157,7 +192,7 @@ def run_case(case, env, res, tmpdir, state):
             % (case["style"], how, spec, W, H, r0, c0, cols, rows, env.persona_name, errs[:4]),
             case,
         )
-    image.close()
+    return errs
 
 
 def aborted_render(image, k):
@@ -310,6 +345,10 @@ def gen_random(rnd, persona):
         case["set_method"] = rnd.choice(["lines", "whole", "WHOLE"] + (["anim"] if style == "iterm2" else []))
     if rnd.random() < 0.15:
         case["abort_at"] = rnd.randint(3, 400)
+    if case["how"] != "iterate" and rnd.random() < 0.3:
+        # the same instance is given another size after its first render (each of the ways
+        # of sizing it) and rendered again: nothing of the first render may show
+        case["resize2"] = [rnd.choice(["set_size_both", "size_tuple", "width", "height", "set_size_w", "set_size_h", "fit", "same"]), rnd.randint(0, 1000), rnd.randint(0, 1000)]
     return case
 
 
